@@ -6,7 +6,9 @@ from vlib.refops import f32, I32_MIN, I32_MAX, U32_MAX
 from vlib.pcheck import PCheck
 
 PID = "C18"
-RULE = ("Generated fact files (1-3 columns of number / unsigned / float / symbol, 1-6 lines) in which exactly one field is an "
+RULE = ("Generated fact files (1-3 columns of number / unsigned / float / symbol, 1-6 lines; in 30% of the plain fact-file cases the "
+        "excursion column is a record [T, symbol] or an ADT $W(T) / $P(T, symbol) and the excursion is the nested component, judged by "
+        "the range rule only) in which exactly one field is an "
         "'excursion' drawn from a literal grammar around every boundary: optional sign, leading zeros, digits around 2^31-1, 2^31, "
         "-2^31, -2^31-1, 2^32-1, 2^32, 2^32+k, 2^63, 2^64+-1, 40-digit numbers, floats (1e38, 3.5e38, 1e39, 1e-46, inf, nan, '1.', '.5', "
         "'1e', hex floats), base prefixes, trailing/leading garbage, embedded blanks, empty field, missing / extra columns, CRLF; "
@@ -155,7 +157,23 @@ def gen(ch):
         lines[bad_line] = lines[bad_line] + "\t" + "9"
     text = ("\r\n" if shape == "crlf" else "\n").join(lines) + ("" if shape == "no_final_newline" else ("\r\n" if shape == "crlf" else "\n"))
     mode = "facts" if ch.bool(0.8) or types[bad_col] == "symbol" else "program"
-    return {"types": types, "rows": rows, "file": text, "bad": [bad_line, bad_col], "exc": exc, "near": near, "shape": shape, "mode": mode}
+    nest = None
+    if mode == "facts" and shape == "ok" and types[bad_col] != "symbol" and ch.bool(0.3):
+        # the excursion sits inside a record or an ADT value of the column (same literal rules for the nested component)
+        nest = ch.choice(["rec", "adt1", "adt2"])
+        text = "\n".join("\t".join(wrap(nest, x) if i == bad_col else x for i, x in enumerate(r)) for r in rows) + "\n"
+    return {"types": types, "rows": rows, "file": text, "bad": [bad_line, bad_col], "exc": exc, "near": near, "shape": shape, "mode": mode, "nest": nest}
+
+
+def wrap(nest, x):
+    return {"rec": "[%s, k]", "adt1": "$W(%s)", "adt2": "$P(%s, k)"}[nest] % x
+
+
+def unwrap(nest, s):
+    pre, post = {"rec": ("[", ", k]"), "adt1": ("$W(", ")"), "adt2": ("$P(", ", k)")}[nest]
+    if not (s.startswith(pre) and s.endswith(post)):
+        raise ValueError("unexpected nested value %r" % s)
+    return s[len(pre):len(s) - len(post)]
 
 
 def typed(s, ty):
@@ -213,6 +231,18 @@ def judge(case, st=None):
         if st is not None:
             label(st, case, pv, "program")
         return
+    nest = case.get("nest")
+    if nest:
+        T = types[bc]
+        tdef = ".type N = [a:%s, s:symbol]\n" % T if nest == "rec" else ".type N = W {a:%s} | P {a:%s, s:symbol}\n" % (T, T)
+        decl = tdef + ".decl r(%s)\n" % ", ".join("c%d:%s" % (i, "N" if i == bc else t) for i, t in enumerate(types))
+        # inside a nested value only the range rule is asserted: a complete numeric literal of the component's type that is not
+        # representable must be rejected, a canonical representable one accepted with its value; other spellings are not judged
+        # (the nested grammar skips blanks and delimits components itself)
+        if verdict == "reject" and not (re.match(r"-?[0-9]+$", exc) if T != "float" else FLT_RE.match(exc)):
+            verdict, val = "lenient", None
+        elif verdict == "lenient":
+            val = None
     prog = decl + ".input r\n.output r\n"
     res = runner.run_program(prog, {"r.facts": case["file"]})
     rr = res.rr
@@ -243,7 +273,8 @@ def judge(case, st=None):
         if shape == "ok" or shape == "no_final_newline":
             # every line must be stored with exactly the written values (as a set of typed tuples)
             try:
-                got_t = {tuple(typed(x, t) for x, t in zip(ln.split("\t"), types)) for ln in got}
+                got_t = {tuple(typed(unwrap(nest, x) if (nest and j == bc) else x, t) for j, (x, t) in enumerate(zip(ln.split("\t"), types)))
+                         for ln in got}
             except ValueError:
                 raise Violation("unparsable output %r" % got[:4], {"case": case})
             want = set()
